@@ -91,8 +91,9 @@ func C12(c *Ctx) {
 	c.R.Rule("C12-R6", "E1", "machines sharing a spec share no script runtime: each execution creates its own", 3)
 	c.R.Rule("C12-R7", "E1", "the action wrapper shared by all machines of a spec keeps no state: no write to its receiver or to package-level storage", 2)
 	c.wrapperEffects("C12-R7", false)
-	c.R.Rule("C12-R8", "E7", "compiling a source leaves the source object alone", 1)
-	c12SourceCompile(c)
+	// (A rule C12-R8 "compiling a source stores nothing into the source object" was added for seed C12-12 while
+	// Branch.Copy still shared guard sources between the versions of a spec; since repair F37 no source object is
+	// shared, the seed stopped being a breaking change, and the rule was withdrawn.)
 	c.R.Rule("C12-R9", "E1", "scripts get copies: machines that share a spec and a message cannot write each other's data through a script", 1)
 	if ea, _ := c.ecmaAnalysis(); ea != nil {
 		if c.scriptIsolation("C12-R9", ea, false) == 0 {
